@@ -212,6 +212,18 @@ func (fx *fnExec) step(in ssa.Instruction, st *State, b *ssa.BasicBlock) {
 		}
 		fail("%s: channel operation not supported", fx.fn)
 	case *ssa.SliceToArrayPointer:
+		// panics when the slice is shorter than the array; the resulting pointer aliases the slice's
+		// backing store, which this heap model cannot express: under `abstract` the result is a fresh
+		// array object with unknown contents (sound for reads; writes through it are not modelled)
+		x := fx.value(in.X, st)
+		at := in.Type().(*types.Pointer).Elem().Underlying().(*types.Array)
+		fx.nopanic("slice", st, BVSle(BVI(at.Len(), 64), x.C[2]), in.Pos())
+		if fx.abstractOK("slice to array pointer conversion (result: fresh array with unknown contents)") {
+			v := fx.freshOf("s2a", in.Type(), st)
+			fx.ex.assume(st, Neq(v.C[0], IntC(0)))
+			st.Regs[in] = v
+			return
+		}
 		fail("%s: slice to array pointer conversion not supported", fx.fn)
 	default:
 		fail("%s: instruction %T not supported: %s", fx.fn, in, in)
@@ -806,6 +818,27 @@ func (fx *fnExec) mapKeyTerm(k Val) *Term {
 	}
 	if b, ok := k.T.Underlying().(*types.Basic); ok && b.Info()&types.IsString != 0 {
 		return fx.ex.strID(k)
+	}
+	if st, ok := k.T.Underlying().(*types.Struct); ok {
+		// struct key: an uninterpreted encoding of the field keys (equal keys get equal codes; distinct
+		// keys may collide in a model, which only adds behaviours)
+		var args []*Term
+		var sorts []*Sort
+		for i := 0; i < st.NumFields(); i++ {
+			ft := fieldOf(k, i)
+			var t *Term
+			if len(ft.C) == 1 {
+				t = ft.C[0]
+			} else if b, ok := ft.T.Underlying().(*types.Basic); ok && b.Info()&types.IsString != 0 {
+				t = fx.ex.strID(ft)
+			} else {
+				fail("%s: map key type %v not supported (field %d)", fx.fn, k.T, i)
+			}
+			args = append(args, t)
+			sorts = append(sorts, t.Sort)
+		}
+		u := DeclUF("$key:"+typeName(k.T), IntSort, sorts...)
+		return App(u, args...)
 	}
 	fail("%s: map key type %v not supported", fx.fn, k.T)
 	return nil
